@@ -117,6 +117,7 @@ fn encode_from_variables(
 fn encode_from_state_value(
     state_value: &StateValue,
     state: &HashMap<String, StateValue>,
+    handles_chain: &mut Vec<String>,
 ) -> Result<Value, String> {
     match state_value {
         StateValue::Boolean(value) => Ok(Value::Bool(*value)),
@@ -127,14 +128,25 @@ fn encode_from_state_value(
         StateValue::Number64Bit(value) => Ok(Value::Number(Number::from(*value))),
         StateValue::UnsignedNumber64Bit(value) => Ok(Value::Number(Number::from(*value))),
         StateValue::String(value) => match state.get(value) {
-            Some(sub_state_value) => encode_from_state_value(sub_state_value, state),
+            Some(sub_state_value) => {
+                // a collection which holds its own handle has no JSON form and would recurse without end
+                if handles_chain.contains(value) {
+                    return Err(format!("Cyclic reference found for handle: {}", value));
+                }
+
+                handles_chain.push(value.to_string());
+                let result = encode_from_state_value(sub_state_value, state, handles_chain);
+                handles_chain.pop();
+
+                result
+            }
             None => Ok(Value::String(value.to_string())),
         },
         StateValue::List(list) => {
             let mut items = vec![];
 
             for item in list {
-                match encode_from_state_value(item, state) {
+                match encode_from_state_value(item, state, handles_chain) {
                     Ok(item_value) => {
                         items.push(item_value);
                     }
@@ -148,7 +160,7 @@ fn encode_from_state_value(
             let mut items = Map::new();
 
             for (key, value) in sub_state {
-                match encode_from_state_value(value, state) {
+                match encode_from_state_value(value, state, handles_chain) {
                     Ok(item_value) => {
                         items.insert(key.to_string(), item_value);
                     }
@@ -166,7 +178,10 @@ fn encode_from_state_value(
 
 fn encode_from_state(value: &str, state: &HashMap<String, StateValue>) -> Result<String, String> {
     let json_value = match state.get(value) {
-        Some(state_value) => encode_from_state_value(state_value, state),
+        Some(state_value) => {
+            let mut handles_chain = vec![value.to_string()];
+            encode_from_state_value(state_value, state, &mut handles_chain)
+        }
         None => Ok(Value::String(value.to_string())),
     };
 
